@@ -412,7 +412,7 @@ func (n numDatum) Literal(context string) string {
 	}
 
 	// ... then the easy ones.
-	return fmt.Sprintf("%v", n.num)
+	return strconv.FormatFloat(n.num, 'f', -1, 64)
 }
 
 func (n numDatum) Nodeset(context string) []xutils.XpathNode {
